@@ -635,9 +635,9 @@ def check_c12(tier, replay):
     else:
         # key derivations dominate: the tours are sampled so that the tier ends in about an hour
         inst = [{"consts": base_consts(Enabled=C12_ENABLED, MaxEpoch=2, MetaFolders=["f1"]),
-                 "representatives": False, "max_len": 80, "sample_paths": 220, "timeout": 7000},
+                 "representatives": False, "max_len": 80, "sample_paths": 700, "timeout": 7000},
                 {"consts": base_consts(Values=["v3", "v5"], MetaFolders=["f1", "d"], Enabled=C12_ENABLED),
-                 "max_len": 80, "sample_paths": 160, "timeout": 7000}]
+                 "max_len": 80, "sample_paths": 500, "timeout": 7000}]
     return account_check("C12", tier, replay, inst, rule, ACCOUNT_ASSUME)
 
 
